@@ -138,4 +138,37 @@ theorem fused_end_is_final_history [Add α] (zero : α) (m : MState α) (a b : L
   rw [List.drop_left' (mrun_length zero a m)]
   exact (mrun_ended zero b _ (mrun_last_stop zero a m h)).2
 
+/-! ### the containers of a live mixer, read off the log -/
+
+theorem length_filterMap_act {n : Nat} : ∀ (old : List (SEv α)), (∀ e ∈ old, e.start < n) →
+    (old.filterMap (act n)).length =
+      old.countP (fun e => decide (e.start < n ∧ n ≤ e.start + e.data.length))
+  | [], _ => rfl
+  | e :: es, h => by
+    have he : e.start < n := h e (by simp)
+    have ih := length_filterMap_act es (fun e' h' => h e' (by simp [h']))
+    by_cases hc : n ≤ e.start + e.data.length
+    · have : act n e = some (e.data.drop (n - e.start)) := by
+        unfold act; rw [if_pos ⟨by omega, hc⟩]
+      simp [this, ih, he, hc]
+    · have : act n e = none := by
+        unfold act; rw [if_neg (by omega)]
+      simp [this, ih, hc]
+
+theorem live_sizes {m : MState α} {s : SState α} (h : Live m s) :
+    m.notPlaying.length = s.evs.countP (fun e => decide (s.n ≤ e.start)) ∧
+    m.playing.length =
+      s.evs.countP (fun e => decide (e.start < s.n ∧ s.n ≤ e.start + e.data.length)) := by
+  obtain ⟨_, _, _, old, pend, Tst, hevs, hold, hplay, hq, _⟩ := h
+  have hge := queueOK_ge _ _ _ hq
+  have hlen := queueOK_length _ _ _ hq
+  have c1 : old.countP (fun e => decide (s.n ≤ e.start)) = 0 := by
+    rw [List.countP_eq_zero]; intro e he; have := hold e he; simp; omega
+  have c2 : pend.countP (fun e => decide (s.n ≤ e.start)) = pend.length := by
+    rw [List.countP_eq_length]; intro e he; have := hge e he; simpa using this
+  have c3 : pend.countP (fun e => decide (e.start < s.n ∧ s.n ≤ e.start + e.data.length)) = 0 := by
+    rw [List.countP_eq_zero]; intro e he; have := hge e he; simp; omega
+  rw [hevs, List.countP_append, List.countP_append, c1, c2, c3, hplay, length_filterMap_act old hold, hlen]
+  simp
+
 end ALV.C16
